@@ -47,6 +47,41 @@ def frameProp (magic : UInt32) (K : Bytes → Option Bytes) (b : Bytes) : String
         then ["truncation-accepted"] else [])
     if fails.isEmpty then "ok " ++ (kindOfPayload m).name else "FAIL:" ++ ",".intercalate fails
 
+/-- the deterministic filler of the large-frame op (same formula in the harness) -/
+def bigPattern (n seed : Nat) : Bytes := (List.range n).map fun i => UInt8.ofNat ((seed + i) % 251)
+
+def bigOffsets (n : Nat) : List Nat :=
+  ([0, 262143, 262144] ++ (if n ≥ 100 then [n - 100] else []) ++ (if n ≥ 2 then [n - 2] else []) ++ (if n ≥ 1 then [n - 1] else [])).filter (· < n)
+
+/-- `bigframe`: frame a message with a payload of exactly `target` bytes, read it back, flip payload bytes at block boundaries
+and in the tail -/
+def bigFrame (magic : UInt32) (kind : String) (target seed : Nat) : String :=
+  let payload? : Option (Kind × Bytes) :=
+    if kind == "version" then
+      if target < 81 + 0x10000 then none else
+      let v : versionTy.Val := (UInt32.ofNat seed, (0 : UInt64), (0 : Int64), (0 : UInt16), (0 : UInt16), (0 : UInt16),
+        (List.replicate 32 0 : Bytes), UInt64.ofNat seed, (0 : UInt64), (0 : UInt8), (seed % 2 == 1), bigPattern (target - 81) seed)
+      some (.version, versionTy.enc v)
+    else if kind == "tx" then
+      if target < 58 + 0x10000 then none else
+      let t : txTy.Val := (((0 : UInt8), (0xd1 : UInt8), UInt32.ofNat seed, (0 : UInt64), (0 : UInt64), (0 : UInt64), bigPattern (target - 58) seed,
+        ([] : Bytes), (List.replicate 20 0 : Bytes), (0 : UInt8)), [])
+      some (.tx, txTy.enc t)
+    else none
+  match payload? with
+  | none => "bad-op"
+  | some (k, p) =>
+    if p.length != target then "bad-op:len=" ++ toString p.length
+    else
+      let frame := frameOf magic H k p
+      let noKey : Bytes → Option Bytes := fun _ => none
+      let okRead := match readMessage magic noKey H frame with | .ok _ => true | .error _ => false
+      let accepted := (bigOffsets p.length).any fun off =>
+        match readMessage magic noKey H (corruptAt frame (24 + off) 0x01) with | .ok _ => true | .error _ => false
+      if !okRead then "FAIL:valid-frame-rejected"
+      else if accepted then "FAIL:corruption-accepted"
+      else "ok " ++ kind ++ " len=" ++ toString p.length ++ " sum=" ++ hex (checksum H p)
+
 def stepP2P (toks : List String) : String :=
   let tbl := parseKeyTable (toks.getLastD "")
   match toks with
@@ -54,6 +89,17 @@ def stepP2P (toks : List String) : String :=
     match magic.toNat?, ofHex b with
     | some mg, some b => showRead (readMessage (UInt32.ofNat mg) (lookupKey tbl) H b)
     | _, _ => "bad-op"
+  | ["hold", magic, f1, _f2, _f3, _keys] =>   -- held-message comparison: evaluated on the implementation; the model reads frame 1
+    match magic.toNat?, ofHex f1 with
+    | some mg, some b =>
+      match readMessage (UInt32.ofNat mg) (lookupKey tbl) H b with
+      | .ok (m, _, _) => "ok " ++ (kindOfPayload m).name
+      | .error _ => "err"
+    | _, _ => "bad-op"
+  | ["bigframe", magic, kind, target, seed] =>
+    match magic.toNat?, target.toNat?, seed.toNat? with
+    | some mg, some t, some sd => bigFrame (UInt32.ofNat mg) kind t sd
+    | _, _, _ => "bad-op"
   | ["prop", magic, b, _keys] =>
     match magic.toNat?, ofHex b with
     | some mg, some b => frameProp (UInt32.ofNat mg) (lookupKey tbl) b
